@@ -7,6 +7,7 @@ import (
 
 	"pgregory.net/rapid"
 
+	"github.com/free5gc/go-upf/internal/verif/pipeline"
 	"github.com/free5gc/go-upf/internal/verif/sessmodel"
 	"github.com/free5gc/go-upf/internal/verif/stack"
 	"github.com/free5gc/go-upf/internal/verif/vcore"
@@ -17,7 +18,8 @@ func TestMain(m *testing.M) {
 		"rapid histories (<= 25 ops) from 3 node sockets plus sockets that never associated: every request kind (Heartbeat, Association Setup, Establishment, Modification, Deletion), unknown node ids, missing Node ID / CP F-SEID, equal CP SEIDs chosen by different peers, "+
 			"Create PDRs with and without UE IP address, unknown SEIDs of every class; oracle per request: an answer arrives only at the sending socket, echoes the sequence number, has the matching type; session-level answers carry the addressed session's CP SEID or SEID 0 with cause 65; "+
 			"an accepted Establishment Response carries the UPF node id, a UP F-SEID (which an immediately following Modification addresses successfully) and one Created PDR per Create PDR with UE IP; a request answered with an error cause or not at all leaves server snapshot and model data plane unchanged; "+
-			"all Heartbeat / Association Setup Responses carry byte-identical recovery time stamps; a socket's latest request sent once more byte for byte (after whatever other traffic) is answered at that socket by the datagram that answered the first copy, or not at all, and changes nothing. non-trivial = history with >= 1 unanswered or error-answered request and two live sessions with equal CP SEIDs; distinct by history",
+			"all Heartbeat / Association Setup Responses carry byte-identical recovery time stamps; a socket's latest request sent once more byte for byte (after whatever other traffic) is answered at that socket by the datagram that answered the first copy, or not at all, and changes nothing. "+
+			"Pipelining: 2-8 establishments / heartbeats of three peers (equal sequence numbers across peers) sent back to back while the event loop is parked inside the first one's data-plane call, so that the receiver queues them all; each must be answered once, at its own socket, with its own sequence number, CP SEID and a UP SEID of its own, and the data plane must hold each session's own rules octet for octet. non-trivial = history with >= 1 unanswered or error-answered request and two live sessions with equal CP SEIDs; (or >= 2 datagrams queued behind the parked loop); distinct by history",
 		"CP SEIDs are unique per peer", "model data plane (kernel semantics) instead of gtp5g")
 	vcore.Main(m)
 }
@@ -50,6 +52,19 @@ func account(c sessmodel.Case, r sessmodel.Result) {
 	}
 }
 
+// runPipeline: several peers' requests in flight at once, queued behind a parked event loop (package pipeline).
+func runPipeline(t vcore.Failer, c pipeline.Case) {
+	v, st := pipeline.Run(c)
+	vcore.E.Eval()
+	vcore.E.Class("pipelined")
+	if st.Queued >= 2 {
+		vcore.E.Class("pipelined:>=2_datagrams_queued_behind_the_loop")
+		vcore.E.NonTrivial(vcore.JSON(c))
+		vcore.E.Sample("pipelined", pipeline.Brief(c))
+	}
+	vcore.Report(t, v, map[string]any{"pipeline": c})
+}
+
 func report(t vcore.Failer, c sessmodel.Case, r sessmodel.Result) {
 	if r.V == nil || vcore.IsKnown(r.V.Key) {
 		return
@@ -68,10 +83,19 @@ func report(t vcore.Failer, c sessmodel.Case, r sessmodel.Result) {
 func TestC08(t *testing.T) {
 	files, explicit := vcore.ReplayFiles()
 	for _, f := range files {
-		var c sessmodel.Case
-		if err := vcore.LoadReplayCase(f, &c); err != nil {
+		var w struct {
+			sessmodel.Case
+			Pipeline *pipeline.Case `json:"pipeline"`
+		}
+		if err := vcore.LoadReplayCase(f, &w); err != nil {
 			t.Fatalf("replay %s: %v", f, err)
 		}
+		if w.Pipeline != nil {
+			vcore.E.Class("replayed")
+			runPipeline(t, *w.Pipeline)
+			continue
+		}
+		c := w.Case
 		r := sessmodel.Run(c, or)
 		account(c, r)
 		vcore.E.Class("replayed")
@@ -80,6 +104,9 @@ func TestC08(t *testing.T) {
 	if explicit {
 		return
 	}
+	vcore.Check(t, vcore.N(150, 1200), func(rt *rapid.T) {
+		runPipeline(rt, pipeline.Gen(rt))
+	})
 	// one fixed scenario lets a full second pass between answers: recovery
 	// time stamps have one-second resolution, so a per-response clock read
 	// would otherwise only show when a case happens to straddle a second
